@@ -1,4 +1,330 @@
-(* Proofs/PoolProofs.v — invariants of the worker-pool transition system (being written). *)
+(* Proofs/PoolProofs.v — invariants of the worker-pool transition system Model/PoolLTS.v.
+
+   Part 1: list/update lemmas.
+   Part 2: the conservation invariant G, for EVERY configuration and EVERY trace (overlapping Stop and
+           Resize included): a task id is in at most one place (some queue generation, a worker, the
+           Resize pending list, the executed log), and only after its Submit got past the enqueue.
+           => C20_at_most_once.
+   Part 3: the invariant Inv of the configuration in which Stop holds resizeMu (stop_locks) and dropped
+           tasks are told so (stop_drains, overflow_closes).  => C20_bounded, C20_resolved. *)
 From Coq Require Import List Arith Bool Lia.
 From Verif Require Import Model.PoolLTS.
 Import ListNotations.
+
+(* ------------------------------------------------------------------ Part 1: lists *)
+
+Lemma set_nth_length {A} n (x : A) l : length (set_nth n x l) = length l.
+Proof. revert n; induction l as [|y r IH]; intros [|n]; cbn; auto. Qed.
+
+Lemma nth_error_set_nth_eq {A} n (x : A) l : n < length l -> nth_error (set_nth n x l) n = Some x.
+Proof. revert n; induction l as [|y r IH]; intros [|n] H; cbn in *; try lia; auto. apply IH; lia. Qed.
+
+Lemma nth_error_set_nth_neq {A} n m (x : A) l : n <> m -> nth_error (set_nth n x l) m = nth_error l m.
+Proof. revert n m; induction l as [|y r IH]; intros [|n] [|m] H; cbn; auto; try congruence. Qed.
+
+Lemma nth_error_lt {A} (l : list A) n x : nth_error l n = Some x -> n < length l.
+Proof. intros H. apply nth_error_Some. congruence. Qed.
+
+(* replacing the n-th element: the list splits around it *)
+Lemma set_nth_split {A} n (l : list A) y :
+  nth_error l n = Some y -> exists a b, l = a ++ y :: b /\ forall x, set_nth n x l = a ++ x :: b.
+Proof.
+  revert n; induction l as [|z r IH]; intros [|n] H; cbn in H; try discriminate.
+  - inversion H; subst. exists [], r. split; auto.
+  - destruct (IH _ H) as (a & b & E & F). exists (z :: a), b. split; [cbn; congruence|].
+    intros x. cbn. rewrite F. reflexivity.
+Qed.
+
+Definition cnt (t : task) (l : list task) : nat := count_occ Nat.eq_dec l t.
+
+Lemma cnt_app t a b : cnt t (a ++ b) = cnt t a + cnt t b.
+Proof. apply count_occ_app. Qed.
+Lemma cnt_nil t : cnt t [] = 0. Proof. reflexivity. Qed.
+Lemma cnt_cons t u l : cnt t (u :: l) = (if Nat.eq_dec u t then 1 else 0) + cnt t l.
+Proof. unfold cnt; cbn. destruct (Nat.eq_dec u t); reflexivity. Qed.
+Lemma cnt_in t l : In t l <-> cnt t l >= 1.
+Proof. unfold cnt. rewrite (count_occ_In Nat.eq_dec). lia. Qed.
+Lemma cnt_notin t l : ~ In t l <-> cnt t l = 0.
+Proof. unfold cnt. apply count_occ_not_In. Qed.
+Lemma nodup_cnt l : NoDup l <-> forall t, cnt t l <= 1.
+Proof. apply (NoDup_count_occ Nat.eq_dec). Qed.
+
+Definition ex_of (w : wst) : list task := match w with WExec t => [t] | _ => [] end.
+Lemma exec_tasks_app a b : exec_tasks (a ++ b) = exec_tasks a ++ exec_tasks b.
+Proof. unfold exec_tasks. apply flat_map_app. Qed.
+
+(* counts after replacing one generation / one worker *)
+Lemma cnt_queue_set t gs g G G' :
+  nth_error gs g = Some G ->
+  cnt t (flat_map g_items (set_nth g G' gs)) + cnt t (g_items G) = cnt t (flat_map g_items gs) + cnt t (g_items G').
+Proof.
+  intros H. destruct (set_nth_split _ _ _ H) as (a & b & E & F). rewrite F, E.
+  rewrite !flat_map_app. cbn. rewrite !cnt_app. lia.
+Qed.
+Lemma exec_tasks_mid a x b : exec_tasks (a ++ x :: b) = exec_tasks a ++ ex_of x ++ exec_tasks b.
+Proof. unfold exec_tasks. rewrite flat_map_app. reflexivity. Qed.
+Lemma cnt_exec_set t ws w x x' :
+  nth_error ws w = Some x ->
+  cnt t (exec_tasks (set_nth w x' ws)) + cnt t (ex_of x) = cnt t (exec_tasks ws) + cnt t (ex_of x').
+Proof.
+  intros H. destruct (set_nth_split _ _ _ H) as (a & b & E & F). rewrite F, E.
+  rewrite !exec_tasks_mid, !cnt_app. lia.
+Qed.
+Lemma exec_tasks_repeat_idle g n : exec_tasks (repeat (WIdle g) n) = [].
+Proof. induction n; cbn; auto. Qed.
+
+(* submitter table *)
+Lemma upd_sub_keys t f l : map fst (upd_sub t f l) = map fst l.
+Proof. unfold upd_sub. rewrite map_map. apply map_ext. intros [u st]; cbn. destruct (Nat.eqb u t); reflexivity. Qed.
+
+Lemma in_upd_sub t f l u st' :
+  In (u, st') (upd_sub t f l) <-> exists st, In (u, st) l /\ st' = if Nat.eqb u t then f st else st.
+Proof.
+  unfold upd_sub. rewrite in_map_iff. split.
+  - intros ([v st0] & E & I). cbn in E. destruct (Nat.eqb v t) eqn:Q; injection E as E1 E2; exists st0;
+      rewrite <- E1, Q; auto.
+  - intros (st & I & E). exists (u, st). split; auto. cbn. subst. destruct (Nat.eqb u t); reflexivity.
+Qed.
+
+Lemma sub_of_in t l st : sub_of t l = Some st -> In (t, st) l.
+Proof.
+  induction l as [|[u x] r IH]; cbn; [discriminate|]. destruct (Nat.eqb u t) eqn:Q.
+  - intros E; inversion E; subst. apply Nat.eqb_eq in Q; subst. auto.
+  - auto.
+Qed.
+Lemma sub_of_none t l : sub_of t l = None -> ~ In t (map fst l).
+Proof.
+  induction l as [|[u x] r IH]; cbn; [tauto|]. destruct (Nat.eqb u t) eqn:Q; [discriminate|].
+  apply Nat.eqb_neq in Q. intros H [E|I]; [congruence|]. exact (IH H I).
+Qed.
+Lemma in_sub_of t st l : NoDup (map fst l) -> In (t, st) l -> sub_of t l = Some st.
+Proof.
+  induction l as [|[u x] r IH]; cbn; [tauto|]. intros ND [E|I].
+  - inversion E; subst. rewrite Nat.eqb_refl. reflexivity.
+  - inversion ND as [|? ? NI ND']; subst. destruct (Nat.eqb u t) eqn:Q; [|auto].
+    apply Nat.eqb_eq in Q; subst. exfalso. apply NI. apply in_map_iff. exists (t, st); auto.
+Qed.
+Lemma sub_unique (l : list (task * sst)) t a b : NoDup (map fst l) -> In (t, a) l -> In (t, b) l -> a = b.
+Proof. intros ND A B. apply (in_sub_of _ _ _ ND) in A, B. congruence. Qed.
+
+(* ------------------------------------------------------------------ Part 2: conservation (all configurations) *)
+
+Definition keys (s : state) : list task := map fst (subs s).
+Definition active (s : state) : list task := queued s ++ exec_tasks (workers s) ++ rz_pend (rz s).
+Definition places (s : state) : list task := active s ++ executed s.
+(* a submitter that is past the enqueue (its task may be somewhere in the pool) *)
+Definition past (st : sst) : bool := match st with SCalled | SPending _ => false | _ => true end.
+
+Record G (s : state) : Prop := {
+  g_keys : NoDup (keys s);
+  g_once : forall t, cnt t (places s) <= 1;
+  g_past : forall t, cnt t (places s) >= 1 -> exists st, In (t, st) (subs s) /\ past st = true }.
+
+Lemma places_init n : places (init n) = [].
+Proof. unfold places, active, queued, init. cbn [gens workers rz executed flat_map g_items g_fresh rz_pend app].
+  rewrite exec_tasks_repeat_idle. reflexivity. Qed.
+
+Lemma G_init n : G (init n).
+Proof.
+  split.
+  - constructor.
+  - intros t. rewrite places_init. cbn. lia.
+  - intros t. rewrite places_init. cbn. lia.
+Qed.
+
+Lemma cnt_places t s :
+  cnt t (places s) = cnt t (queued s) + cnt t (exec_tasks (workers s)) + cnt t (rz_pend (rz s)) + cnt t (executed s).
+Proof. unfold places, active. rewrite !cnt_app. lia. Qed.
+
+(* [tell] and [put_sub] keep a "past" entry for every task that has one, except possibly the updated task *)
+Lemma past_tell s t x u :
+  past x = true ->
+  (exists st, In (u, st) (subs s) /\ past st = true) ->
+  exists st, In (u, st) (subs (tell s t x)) /\ past st = true.
+Proof.
+  intros Px (st & I & P). unfold tell; cbn.
+  eexists. split. { apply in_upd_sub. exists st. split; [exact I|reflexivity]. }
+  destruct (Nat.eqb u t); [|exact P]. destruct st; cbn in *; auto.
+Qed.
+Lemma past_put_other s t x u :
+  u <> t ->
+  (exists st, In (u, st) (subs s) /\ past st = true) ->
+  exists st, In (u, st) (subs (put_sub s t x)) /\ past st = true.
+Proof.
+  intros N (st & I & P). unfold put_sub; cbn.
+  exists st. split; [|exact P]. apply in_upd_sub. exists st. split; [exact I|].
+  destruct (Nat.eqb u t) eqn:Q; [apply Nat.eqb_eq in Q; contradiction|reflexivity].
+Qed.
+Lemma past_put_self s t x st0 :
+  In (t, st0) (subs s) -> past x = true -> exists st, In (t, st) (subs (put_sub s t x)) /\ past st = true.
+Proof.
+  intros I P. exists x. split; [|exact P]. unfold put_sub; cbn. apply in_upd_sub. exists st0. split; [exact I|].
+  rewrite Nat.eqb_refl. reflexivity.
+Qed.
+
+(* a task whose submitter is not past the enqueue is nowhere in the pool *)
+Lemma G_not_past s t st : G s -> sub_of t (subs s) = Some st -> past st = false -> cnt t (places s) = 0.
+Proof.
+  intros Gs E P. destruct (Nat.eq_dec (cnt t (places s)) 0) as [Z|NZ]; [exact Z|].
+  destruct (g_past _ Gs t) as (st' & I & P'); [lia|].
+  apply sub_of_in in E. rewrite (sub_unique _ _ _ _ (g_keys _ Gs) E I) in P. congruence.
+Qed.
+
+Arguments cnt : simpl never.
+
+Lemma G_intro s s' :
+  G s -> NoDup (keys s') ->
+  (forall u, cnt u (places s') <= cnt u (places s) \/
+             (cnt u (places s') = 1 /\ cnt u (places s) = 0 /\ exists st, In (u, st) (subs s') /\ past st = true)) ->
+  (forall u, cnt u (places s') >= 1 -> (exists st, In (u, st) (subs s) /\ past st = true) ->
+             exists st, In (u, st) (subs s') /\ past st = true) ->
+  G s'.
+Proof.
+  intros Gs K C T. split; [exact K| |].
+  - intros u. destruct (C u) as [L|(E & _)]; [|lia]. pose proof (g_once _ Gs u). lia.
+  - intros u P. destruct (C u) as [L|(_ & _ & X)]; [|exact X].
+    apply (T u P). apply (g_past _ Gs). lia.
+Qed.
+
+Ltac break H :=
+  repeat (match type of H with
+  | (if ?c then _ else _) = Some _ => let E := fresh "E" in destruct c eqn:E
+  | match ?x with _ => _ end = Some _ => let E := fresh "E" in destruct x eqn:E
+  | with_gen _ _ _ = Some _ => unfold with_gen in H
+  end; try discriminate H).
+
+Ltac proj := cbn [running maxw cur gens workers subs stop rz resizing executed panicked
+                  set_running set_gens set_workers set_subs set_stop set_rz set_resizing set_executed set_panicked
+                  put_gen put_sub tell queued rz_pend].
+
+Ltac counts := rewrite !cnt_places; unfold queued; proj.
+
+(* the submitter table after the three kinds of update used by [step] *)
+Lemma keys_put s t x : keys (put_sub s t x) = keys s.
+Proof. unfold keys, put_sub; cbn. apply upd_sub_keys. Qed.
+Lemma keys_tell s t x : keys (tell s t x) = keys s.
+Proof. unfold keys, tell; cbn. apply upd_sub_keys. Qed.
+
+Lemma G_same s s' : G s -> subs s' = subs s -> (forall u, cnt u (places s') <= cnt u (places s)) -> G s'.
+Proof.
+  intros Gs E C. apply (G_intro s); [exact Gs| | |].
+  - unfold keys. rewrite E. apply (g_keys _ Gs).
+  - intros u. left. apply C.
+  - intros u _ X. rewrite E. exact X.
+Qed.
+Lemma G_tell s s' t x :
+  G s -> past x = true -> subs s' = subs (tell s t x) -> (forall u, cnt u (places s') <= cnt u (places s)) -> G s'.
+Proof.
+  intros Gs P E C. apply (G_intro s); [exact Gs| | |].
+  - unfold keys. rewrite E. fold (keys (tell s t x)). rewrite keys_tell. apply (g_keys _ Gs).
+  - intros u. left. apply C.
+  - intros u _ X. rewrite E. apply past_tell; assumption.
+Qed.
+Lemma G_put s s' t x :
+  G s -> cnt t (places s) = 0 -> subs s' = subs (put_sub s t x) ->
+  (forall u, cnt u (places s') <= cnt u (places s)) -> G s'.
+Proof.
+  intros Gs Z E C. apply (G_intro s); [exact Gs| | |].
+  - unfold keys. rewrite E. fold (keys (put_sub s t x)). rewrite keys_put. apply (g_keys _ Gs).
+  - intros u. left. apply C.
+  - intros u P X. rewrite E. apply past_put_other; [|exact X]. intros ->. specialize (C t). lia.
+Qed.
+
+Lemma G_step c s l s' : G s -> step c s l = Some s' -> G s'.
+Proof.
+  intros Gs H. unfold step in H. destruct (panicked s) eqn:EP; [discriminate|].
+  destruct l.
+  - (* SubmitCall *)
+    break H. injection H as <-. apply (G_intro s); [exact Gs| | |].
+    + unfold keys; cbn. constructor; [apply sub_of_none; exact E|apply (g_keys _ Gs)].
+    + intros u. left. counts. lia.
+    + intros u _ (st & I & P). exists st. split; [right; exact I|exact P].
+  - (* SubmitBegin *)
+    break H. injection H as <-.
+    apply (G_put s _ t (if running s then SPending (cur s) else SRejected) Gs (G_not_past _ _ _ Gs E eq_refl) eq_refl).
+    intros u. counts. lia.
+  - (* SubmitEnq *)
+    break H; injection H as <-; assert (Z := G_not_past _ _ _ Gs E eq_refl).
+    + (* panic *)
+      apply (G_put s _ t SPanic Gs Z eq_refl). intros u. counts. lia.
+    + (* enqueue *)
+      apply (G_intro s); [exact Gs| | |].
+      * unfold keys; proj. rewrite upd_sub_keys. apply (g_keys _ Gs).
+      * intros u. pose proof (cnt_queue_set u _ _ _ (g_set_items g0 (g_items g0 ++ [t])) E0) as Q.
+        cbn [g_items g_set_items] in Q. rewrite cnt_app, cnt_cons, cnt_nil in Q.
+        rewrite cnt_places in Z. revert Q. counts. intros Q.
+        destruct (Nat.eq_dec t u) as [->|N].
+        -- right. repeat split; try lia. apply (past_put_self s u SWait (SPending g)); [apply sub_of_in; exact E|reflexivity].
+        -- left. lia.
+      * intros u P X. destruct (Nat.eq_dec u t) as [->|N].
+        -- apply (past_put_self s t SWait (SPending g)); [apply sub_of_in; exact E|reflexivity].
+        -- apply (past_put_other s); auto.
+  - (* SubmitTimeout *)
+    break H. injection H as <-.
+    apply (G_put s _ t SRejected Gs (G_not_past _ _ _ Gs E eq_refl) eq_refl). intros u. counts. lia.
+  - (* Take *)
+    break H. injection H as <-. apply (G_same s _ Gs eq_refl). intros u.
+    pose proof (cnt_queue_set u _ _ _ (g_set_items g0 l) E0) as Q. rewrite E1 in Q. cbn [g_items g_set_items] in Q.
+    pose proof (cnt_exec_set u _ _ _ (WExec t) E) as R. cbn [ex_of] in R.
+    rewrite !cnt_cons, !cnt_nil in *. revert Q R. counts. lia.
+  - (* ExitCtx *)
+    break H. injection H as <-. apply (G_same s _ Gs eq_refl). intros u.
+    pose proof (cnt_exec_set u _ _ _ WExit E) as R. cbn [ex_of] in R. revert R. counts. lia.
+  - (* ExitClosed *)
+    break H. injection H as <-. apply (G_same s _ Gs eq_refl). intros u.
+    pose proof (cnt_exec_set u _ _ _ WExit E) as R. cbn [ex_of] in R. revert R. counts. lia.
+  - (* Finish *)
+    break H. injection H as <-. apply (G_tell s _ t (SGot (Some t)) Gs eq_refl eq_refl). intros u.
+    pose proof (cnt_exec_set u _ _ _ (WIdle (cur s)) E) as R. cbn [ex_of] in R.
+    rewrite !cnt_cons, !cnt_nil in *. revert R. counts. rewrite cnt_cons. lia.
+  - (* StopCall *) break H. injection H as <-. apply (G_same s _ Gs eq_refl). intros u. counts. lia.
+  - (* StopCAS *)
+    break H; injection H as <-; apply (G_same s _ Gs eq_refl); intros u.
+    + pose proof (cnt_queue_set u _ _ _ (g_cancelled g) E2) as Q. cbn [g_items g_cancelled] in Q. revert Q. counts. lia.
+    + counts. lia.
+  - (* StopClose *)
+    break H; injection H as <-; apply (G_same s _ Gs eq_refl); intros u.
+    pose proof (cnt_queue_set u _ _ _ (g_close g) E1) as Q. cbn [g_items g_close] in Q. revert Q. counts. lia.
+  - (* StopWait *)
+    break H; injection H as <-; apply (G_same s _ Gs eq_refl); intros u; counts; lia.
+  - (* StopDrain *)
+    break H; injection H as <-.
+    + apply (G_same s _ Gs eq_refl); intros u; counts; lia.
+    + apply (G_tell s _ t SNotExec Gs eq_refl eq_refl). intros u.
+      pose proof (cnt_queue_set u _ _ _ (g_set_items g0 l) E0) as Q. rewrite E1 in Q.
+      cbn [g_items g_set_items] in Q. rewrite cnt_cons in Q. revert Q. counts. lia.
+  - (* RzCall *) break H. injection H as <-. apply (G_same s _ Gs eq_refl). intros u. counts. lia.
+  - (* RzBegin *)
+    break H; injection H as <-; apply (G_same s _ Gs eq_refl); intros u; counts; lia.
+  - (* RzStop *)
+    break H; injection H as <-; apply (G_same s _ Gs eq_refl); intros u.
+    + pose proof (cnt_queue_set u _ _ _ (g_cancelled g) E2) as Q. cbn [g_items g_cancelled] in Q. revert Q. counts. lia.
+    + counts. rewrite cnt_nil. lia.
+    + pose proof (cnt_queue_set u _ _ _ (g_close g) E1) as Q. cbn [g_items g_close] in Q. revert Q. counts. rewrite cnt_nil. lia.
+  - (* RzClose *)
+    break H; injection H as <-; apply (G_same s _ Gs eq_refl); intros u.
+    pose proof (cnt_queue_set u _ _ _ (g_close g) E1) as Q. cbn [g_items g_close] in Q. revert Q. counts. lia.
+  - (* RzWait *)
+    break H; injection H as <-; apply (G_same s _ Gs eq_refl); intros u; counts; rewrite cnt_nil; lia.
+  - (* RzDrain *)
+    break H; injection H as <-; apply (G_same s _ Gs eq_refl); intros u.
+    + counts. lia.
+    + pose proof (cnt_queue_set u _ _ _ (g_set_items g l) E0) as Q. rewrite E1 in Q.
+      cbn [g_items g_set_items] in Q. rewrite cnt_cons in Q. revert Q. counts. rewrite cnt_app, cnt_cons, cnt_nil. lia.
+  - (* RzSwap *)
+    break H; injection H as <-; apply (G_same s _ Gs eq_refl); intros u; counts;
+      rewrite ?flat_map_app, ?exec_tasks_app, ?exec_tasks_repeat_idle, ?cnt_app; cbn [flat_map g_items g_fresh app];
+      rewrite ?cnt_nil; lia.
+  - (* RzReenq *)
+    break H; injection H as <-.
+    + apply (G_same s _ Gs eq_refl); intros u; counts; lia.
+    + apply (G_same s _ Gs eq_refl); intros u; counts; lia.
+    + apply (G_same s _ Gs eq_refl); intros u.
+      pose proof (cnt_queue_set u _ _ _ (g_set_items g (g_items g ++ [t])) E1) as Q.
+      cbn [g_items g_set_items] in Q. rewrite cnt_app, cnt_cons, cnt_nil in Q. revert Q. counts. rewrite cnt_cons. lia.
+    + apply (G_tell s _ t (dropped c) Gs); [unfold dropped; destruct (overflow_closes c); reflexivity|reflexivity|].
+      intros u; counts. rewrite cnt_cons. lia.
+    + apply (G_same s _ Gs eq_refl); intros u; counts; lia.
+    + apply (G_tell s _ t (dropped c) Gs); [unfold dropped; destruct (overflow_closes c); reflexivity|reflexivity|].
+      intros u; counts. rewrite cnt_cons. lia.
+Qed.
